@@ -14,6 +14,7 @@ The monitor is independent of the model and of the event log: it only uses what 
 """
 import json
 
+from harness import watch
 from harness import faultlib2 as F
 from harness.check import parse_nat_list
 
@@ -564,11 +565,18 @@ def falsy_items(ctx, n, kind):
     rng = ctx.rng
     for _ in range(n):
         items = [rng.choice([None, 0, '', False, [], (), 0.0, 'x', 7]) for _ in range(rng.choice([1, 2, 3, 4]))]
+        for i in range(1, len(items)):
+            if rng.random() < 0.3:
+                items[i] = items[i - 1]          # the very same object again: it is a message like any other
+        slow = rng.random() < 0.4                # a receiver that is busy for a while after each item: a backlog builds up
         waiting_first = rng.random() < 0.6
         iterate = rng.random() < 0.5
+        # (a channel only buffers for a consumer that is subscribed: between two separate `await channel` it is not)
+        slow = slow and (kind == 'queue' or iterate)
         nrecv = 1 if kind == 'queue' else rng.choice([1, 2])
         case = {'falsy_items': [repr(x) for x in items], 'stream': kind, 'receiver_waits_first': waiting_first, 'iterates': iterate,
-                'receivers': nrecv}
+                'receivers': nrecv, 'slow_receivers': slow,
+                'same_object_as_previous': [i for i in range(1, len(items)) if items[i] is items[i - 1]]}
         stream = usim.Queue() if kind == 'queue' else usim.Channel()
         got = [[] for _ in range(nrecv)]
         errors = []
@@ -578,9 +586,13 @@ def falsy_items(ctx, n, kind):
                 if iterate:
                     async for x in stream:
                         got[k].append(x)
+                        if slow:
+                            await (time + 2)
                 else:
                     for _ in items:
                         got[k].append(await stream)
+                        if slow:
+                            await (time + 2)
             except usim.StreamClosed:
                 errors.append(('StreamClosed', k, time.now))
 
@@ -597,7 +609,7 @@ def falsy_items(ctx, n, kind):
                         await stream.put(x)
                         if rng.random() < 0.5:
                             await (time + 1)
-                await (time + 2)
+                await (time + (2 + (2 * len(items) if slow else 0)))
                 await stream.close()
         try:
             usim.run(main())
@@ -615,8 +627,60 @@ def falsy_items(ctx, n, kind):
             ctx.fail(case, 'StreamClosed on an open stream: %r' % (errors,), family='falsy-items')
 
 
+def double_subscription(ctx, n):
+    """directed family (direct API): ONE activity holding two subscriptions of one channel - it iterates over the channel and
+    awaits the channel inside the loop body, or runs two iterations nested.  Every subscription gets every message put while it
+    is subscribed, in order: the iteration sees m1, m2, ... without a gap although the inner `await` received some of them
+    too"""
+    import usim
+    from usim import time, Scope
+    rng = ctx.rng
+    for _ in range(n):
+        k = rng.choice([2, 3, 4, 5])
+        msgs = [rng.choice(['a', 'b', 0, None, 7]) for _ in range(k)]
+        case = {'double_subscription': [repr(m) for m in msgs]}
+        stream = usim.Channel()
+        got = []
+
+        async def receiver():
+            try:
+                async for x in stream:
+                    got.append(('iter', x, time.now))
+                    y = await stream
+                    got.append(('await', y, time.now))
+            except usim.StreamClosed:
+                got.append(('closed', None, time.now))
+
+        async def main():
+            async with Scope() as scope:
+                scope.do(receiver())
+                for m in msgs:
+                    await (time + 1)
+                    await stream.put(m)
+                await (time + 1)
+                await stream.close()
+        try:
+            watch.run(main())
+        except BaseException as e:   # noqa
+            ctx.fail(case, 'raised %r; received %r' % (e, got), family='double-subscription')
+            continue
+        ctx.count(('double', json.dumps(case)), nontrivial=True)
+        ctx.bump('family:double-subscription')
+        want = []
+        for i, m in enumerate(msgs):
+            if i:
+                want.append(('await', m, i + 1))
+            want.append(('iter', m, i + 1))
+        want.append(('closed', None, k + 1))
+        same = len(got) == len(want) and all(a[0] == b[0] and a[1] is b[1] and a[2] == b[2] for a, b in zip(got, want))
+        if not same:
+            ctx.fail(case, 'an activity iterating over a channel and awaiting it inside the loop: observed %r, expected %r' % (got, want),
+                     family='double-subscription')
+
+
 def run(ctx):
     falsy_items(ctx, ctx.n(40, 600), 'channel')
+    double_subscription(ctx, ctx.n(20, 200))
     _run_vertical(ctx)
     # second, independent tie: channel programs on the whole-program machine (whole-trace correspondence)
     from harness import machine_prop
